@@ -1130,6 +1130,10 @@ mod repr {
     fn to_f64_small(dword: DoubleWord) -> Approximation<f64, Sign> {
         const_assert!((DoubleWord::MAX as f64) < f64::MAX);
         let f = dword as f64;
+        if f == DoubleWord::MAX as f64 {
+            // rounded up to 2^BITS (which is what DoubleWord::MAX as f64 is): the cast back saturates
+            return Inexact(f, Sign::Positive);
+        }
         let back = f as DoubleWord;
 
         match back.partial_cmp(&dword).unwrap() {
